@@ -2,13 +2,13 @@
 
 PROP = dict(
     level="proof",
-    lean_modules=["PopsModel.Props.C14", "PopsModel.Props.NonVacuous.KernelsReal"],
+    lean_modules=["PopsModel.Props.C14", "PopsModel.Props.NonVacuous.KernelsReal", "PopsModel.Props.C14Approx"],
     theorems=["Pops.C14_quota", "Pops.C14_picks_in_window", "Pops.C14_equal_share", "Pops.C14_mirror",
               "Pops.C14_mirror_weight", "Pops.C14_reset", "Pops.C14_fresh_run", "Pops.C14_window", "Pops.C14_distance",
               "Pops.C14_quantile_cauchy", "Pops.C14_quantile_exponential", "Pops.C14_quantile_weibull",
               "Pops.C14_quantile_logistic", "Pops.C14_quantile_hyperbolic_secant",
               "Pops.C14_powerlaw_cdf_of_density", "Pops.C14_quantile_powerlaw_fails",
-              "Pops.C14_quantile_powerlaw_pareto_fails", "Pops.C14_no_window_example", "Pops.C14_parameters_rejected"],
+              "Pops.C14_quantile_powerlaw_pareto_fails", "Pops.C14_no_window_example", "Pops.C14_parameters_rejected", "Pops.C14_quota_approx", "Pops.C14_quota_abs", "Pops.C14_quota_surplus", "Pops.C14_picks_in_window_approx", "Pops.C14_equal_share_approx", "Pops.C14_mirror_approx"],
     commands=["det.*"],
     runs={
         "quick": [("h_det", "witness", 0, 6), ("h_det", "alloc", 0, 400), ("h_det", "factory", 0, 200), ("h_det", "quantile", 0, 600)],
